@@ -103,6 +103,20 @@ def json_candidates(fmt, doc):
                 out.append((var + ["variants"], v["variants"] + ["Ghost"]))       # references a child that does not exist
     if fmt == "images":
         out.append((["payload", "images"], DELETE))
+        # documented identity rule (doc/images-1.1.rst): records sharing subvariant/type/format/arch/disc_number/unified/
+        # additional_variants must be the same image -> changing the checksums of ONE copy makes the document invalid
+        def ident(rec):
+            return json.dumps([rec.get(k) for k in ("subvariant", "type", "format", "arch", "disc_number")] + [rec.get("unified") or False, rec.get("additional_variants") or []])
+        counts = {}
+        for variant in p["images"]:
+            for arch in p["images"][variant]:
+                for rec in p["images"][variant][arch]:
+                    counts[ident(rec)] = counts.get(ident(rec), 0) + 1
+        for variant in sorted(p["images"]):
+            for arch in sorted(p["images"][variant]):
+                for i, rec in enumerate(p["images"][variant][arch]):
+                    if counts[ident(rec)] >= 2:
+                        out.append((["payload", "images", variant, arch, i, "checksums"], {"sha256": "0" * 64, "corrupted": "yes"}))
         for variant in sorted(p["images"]):
             for arch in sorted(p["images"][variant]):
                 for i, rec in enumerate(p["images"][variant][arch]):
